@@ -59,11 +59,27 @@ def configs(tier):
         out.append(dict(kind="dispatch", method=m))
     for shape in ([2, 2], [2, 3]):
         out.append(dict(kind="emd", shape=shape))
+    # the mobility (face weight) routine the iterations call: linear in a constant cell weight, even in the flux
+    for shape in ([[3], [2, 2], [2, 1, 2]] if q else [[3], [4], [2, 2], [3, 2], [1, 3], [2, 1, 2], [2, 2, 2]]):
+        for mob in ("CELL_BASED", "CELL_BASED_ARITHMETIC", "CELL_BASED_HARMONIC", "SUBCELL_BASED", "FACE_BASED"):
+            if mob == "SUBCELL_BASED" and len(shape) > 1:
+                continue  # 2^dim sub-cell norms per face under a harmonic mean: queries beyond 600 s in 2-D (probed)
+            out.append(dict(kind="mobility", shape=shape, mobility=mob, mode="CONSTANT_CELL_PROJECTION"))
+    # one-cell-thin grids through the real iterations: every method and mobility option returns the cost of the
+    # unique mass-conserving flux (concrete masses, symbolic tolerances -> every stopping branch)
+    for shape in ([[3], [3, 1], [1, 3], [1, 3, 1]] if q else [[2], [3], [5], [3, 1], [1, 3], [4, 1], [1, 3, 1], [3, 1, 1], [1, 1, 3]]):
+        for method in ("newton", "bregman"):
+            for mob in ("CELL_BASED", "CELL_BASED_ARITHMETIC", "CELL_BASED_HARMONIC", "SUBCELL_BASED", "FACE_BASED"):
+                out.append(dict(kind="thin_solver", shape=shape, method=method, mobility=mob, draw=0))
+    # identical distributions through the real iterations (the mass difference cancels symbolically)
+    for shape in ([[3], [2, 2]] if q else [[3], [2, 2], [3, 2], [2, 1, 2]]):
+        for method in ("newton", "bregman"):
+            out.append(dict(kind="identical", shape=shape, method=method))
     return out
 
 
 def validate_filter(cfg):
-    return cfg["kind"] in ("laws", "moment", "unique", "dispatch")
+    return cfg["kind"] in ("laws", "moment", "unique", "dispatch", "mobility", "identical", "thin_solver")
 
 
 CALLS = []
@@ -145,10 +161,134 @@ def _relate(calls_p, calls_q, c=None):
             ENGINE.add(z3.Implies(z3.And(*[x == ct * y for x, y in zip(aq, ap)]), yq == ct * yp))
 
 
+def install_stubs():
+    import darsia.measure.wasserstein as ws
+    import darsia.utils.fv as fv
+    from . import c04
+
+    c04.install_stubs()  # exact linear solves (numeric on constants), hmean on object arrays
+    ws.hmean = fv.hmean
+
+
+def body_mobility(cfg, darsia):
+    """_compute_face_weight with a constant cell weight c versus no weight, and for -u versus u"""
+    import darsia.measure.wasserstein as ws
+
+    shape = tuple(cfg["shape"])
+    dim = len(shape)
+    _install_norm()
+    grid = darsia.Grid(shape, VOX[:dim])
+    opts = {"formulation": "full", "linear_solver": "direct", "l1_mode": getattr(ws.L1Mode, cfg["mode"]), "mobility_mode": getattr(ws.MobilityMode, cfg["mobility"]), "regularization": 0.0}
+    w1 = ws.WassersteinDistanceNewton(grid, None, dict(opts))
+    c = S.real("cw", lo="1/10", hi=10)
+    dt = object if S.instrumented() else float
+    wa = np.empty(shape, dtype=dt)
+    wa[...] = c
+    wimg = darsia.Image(wa, dimensions=[VOX[m] * shape[m] for m in range(dim)], space_dim=dim, scalar=True)
+    wc = ws.WassersteinDistanceNewton(grid, wimg, dict(opts))
+    nf = int(grid.num_faces)
+    u = S.array("u", nf, lo=-10, hi=10)
+    n0 = len(CALLS)
+    fw, fwi = w1._compute_face_weight(u)
+    n1 = len(CALLS)
+    fwn, fwin = w1._compute_face_weight(-u)
+    n2 = len(CALLS)
+    fwc, fwic = wc._compute_face_weight(u)
+    n3 = len(CALLS)
+    if S.symbolic():
+        import z3
+
+        from symx.core import ENGINE
+
+        _relate(CALLS[n0:n1], CALLS[n1:n2])
+        _relate(CALLS[n0:n1], CALLS[n2:n3], c)
+        for _, y in CALLS[n0:n3]:
+            ENGINE.add(y >= z3.RealVal("1/1000"))  # no vanishing flux norm (the regularisation only guards 0/0)
+    else:
+        # plain / const: the same precondition on the concrete draw
+        dens = w1.transport_density(u, weighted=False, flatten=True)
+        if not all(S.tofloat(x) > 1e-3 for x in np.asarray(dens).ravel()):
+            raise S.HarnessSkip("vanishing flux norm in this draw")
+    S.claim("mobility_and_its_inverse_are_reciprocal", S.eq(fw * fwi, np.ones(nf)))
+    S.claim("mobility_is_even_in_the_flux", S.and_(S.eq(fwn, fw), S.eq(fwin, fwi)))
+    S.claim("mobility_scales_linearly_with_a_constant_cell_weight", S.and_(S.eq(fwc, c * fw), S.eq(fwic * c, fwi)))
+    S.claim("mobility_is_positive", S.and_([S.lt(0, x) for x in fw]))
+    S.observe("fw", fw)
+
+
+def body_thin_solver(cfg, darsia):
+    import darsia.measure.wasserstein as ws
+    from symx.core import ENGINE
+
+    if S.symbolic():
+        ENGINE.const_mode = True
+    shape = tuple(cfg["shape"])
+    dim = len(shape)
+    nc = int(np.prod(shape))
+    rng = np.random.default_rng(200 + cfg["draw"] + nc)
+    vals = [int(v) for v in rng.integers(-40, 41, size=nc - 1)]
+    dt = object if S.instrumented() else float
+    f = np.zeros(nc, dtype=dt)
+    for i, v in enumerate(vals):
+        f[i] = S.const(f"{v}/8")
+    f[nc - 1] = S.const(f"{-sum(vals)}/8")
+    tr = S.real("tol_residual", lo="1/1000000", hi=2)
+    ti = S.real("tol_increment", lo="1/1000000", hi=2)
+    td = S.real("tol_distance", lo="1/1000000", hi=2)
+    grid = darsia.Grid(shape, VOX[:dim])
+    cls = ws.WassersteinDistanceNewton if cfg["method"] == "newton" else ws.WassersteinDistanceBregman
+    opts = {"formulation": "full", "linear_solver": "direct", "num_iter": 4, "l1_mode": ws.L1Mode.CONSTANT_CELL_PROJECTION, "mobility_mode": getattr(ws.MobilityMode, cfg["mobility"]), "tol_residual": tr, "tol_increment": ti, "tol_distance": td}
+    w1 = cls(grid, None, opts)
+    nf = int(grid.num_faces)
+    dist, sol, info = w1._solve(f)
+    ax = [m for m in range(dim) if shape[m] > 1][0]
+    vol = float(np.prod(VOX[:dim]))
+    area = float(np.prod([VOX[m] for m in range(dim) if m != ax]))
+    ustar, acc = [], 0.0
+    for j in range(nf):
+        acc = acc + float(vals[j]) / 8
+        ustar.append(acc * vol / area)
+    cost = 0.0
+    for j in range(nc):
+        ul = ustar[j - 1] if j > 0 else 0.0
+        ur = ustar[j] if j < nf else 0.0
+        cost += vol * abs(0.5 * (ul + ur))
+    scale = 1 + max(abs(x) for x in ustar)
+    eps = S.const(1e-9 * scale)
+    ok = [S.and_(S.le(sol[j] - S.const(ustar[j]), eps), S.le(S.const(ustar[j]) - sol[j], eps)) for j in range(nf)]
+    S.claim("thin_grid_flux_is_the_unique_mass_conserving_flux", S.and_(ok))
+    S.claim("thin_grid_distance_is_the_cost_of_the_unique_flux", S.and_(S.le(dist - S.const(cost), eps), S.le(S.const(cost) - dist, eps)))
+    S.observe("dist", dist)
+
+
+def body_identical(cfg, darsia):
+    """d(m, m) = 0 through the real Newton / Bregman iteration, for every mass distribution m"""
+    from symx.core import ENGINE
+
+    if S.symbolic():
+        ENGINE.const_mode = True  # everything after the cancellation m - m is constant
+    shape = tuple(cfg["shape"])
+    dim = len(shape)
+    m = S.array("m", shape, lo="1/10", hi=10)
+    dims = [VOX[k] * shape[k] for k in range(dim)]
+    I1 = darsia.Image(m.copy(), dimensions=dims, space_dim=dim, scalar=True)
+    I2 = darsia.Image(m.copy(), dimensions=dims, space_dim=dim, scalar=True)
+    d = darsia.wasserstein_distance(I1, I2, method=cfg["method"], options={"formulation": "full", "linear_solver": "direct", "num_iter": 3, "tol_residual": 1e-10, "tol_increment": 1e-10, "tol_distance": 1e-10})
+    S.claim("distance_between_identical_distributions_is_zero", S.eq(d, 0))
+    S.claim("inputs_untouched", S.and_(S.eq(I1.img, m), S.eq(I2.img, m)))
+    S.observe("d", d)
+
+
 def body(cfg):
     import darsia
 
     k = cfg["kind"]
+    if k == "mobility":
+        return body_mobility(cfg, darsia)
+    if k == "identical":
+        return body_identical(cfg, darsia)
+    if k == "thin_solver":
+        return body_thin_solver(cfg, darsia)
     if k == "norm_lemmas":
         return body_lemmas(cfg)
     if k == "dispatch":
